@@ -38,7 +38,7 @@ func c18IsSet(v reflect.Value) bool {
 }
 
 func c18Same(a, b reflect.Value) bool {
-	return len(vocab.ExactDiff(a.Interface(), b.Interface())) == 0
+	return len(vocab.ContentDiff(a.Interface(), b.Interface())) == 0
 }
 
 // c18Check runs CopyItemProperties(to, from) and evaluates the merge rule.  mustRefuse != "" names the reason a refusal is required.
@@ -55,7 +55,7 @@ func c18Check(to, from ap.Item, mustRefuse string, weak bool) (ds []keyed, outco
 		return []keyed{{"copy panic@" + pi.Frame + " " + reason, pi.Value}}, "panic"
 	}
 	if from != nil && !vocab.IsEmptyItem(from) {
-		if d := vocab.ExactDiff(fromSnap, from); len(d) > 0 {
+		if d := vocab.ContentDiff(fromSnap, from); len(d) > 0 {
 			ds = append(ds, keyed{"copy from-modified " + gt, "`from` was modified: " + strings.Join(d, "; ")})
 		}
 	}
@@ -64,7 +64,7 @@ func c18Check(to, from ap.Item, mustRefuse string, weak bool) (ds []keyed, outco
 			ds = append(ds, keyed{"copy refuse " + mustRefuse, "no error although a refusal is required (" + mustRefuse + ")"})
 		}
 		if to != nil && !vocab.IsEmptyItem(to) {
-			if d := vocab.ExactDiff(toSnap, to); len(d) > 0 {
+			if d := vocab.ContentDiff(toSnap, to); len(d) > 0 {
 				ds = append(ds, keyed{"copy refuse " + mustRefuse + " to-modified", "`to` was modified although the copy must be refused: " + strings.Join(d, "; ")})
 			}
 		}
